@@ -241,9 +241,16 @@ def ambient_streams(ctx):
         def __len__(self):
             return len(self.getvalue())
 
+    class AsciiConsole(io.StringIO):
+        # a console that cannot show every character (LANG=C, a legacy code page): writing such text to it raises
+        def write(self, t):
+            t.encode('ascii')
+            return io.StringIO.write(self, t)
+
     docs = [">>> print('x')\nx", ">>> print('x')\ny", ">>> raise ValueError('v')", ">>> raise ValueError('v')\nTraceback (most recent call last):\nValueError: v",
-            ">>> import xdoctest\n>>> raise xdoctest.ExitTestException()", ">>> raise SystemExit(3)", ">>> print('never')  # xdoctest: +SKIP"]
-    for mk in (Sink, BadFlush, NoFlushAttr, Transcript):
+            ">>> import xdoctest\n>>> raise xdoctest.ExitTestException()", ">>> raise SystemExit(3)", ">>> print('never')  # xdoctest: +SKIP",
+            ">>> print(chr(0x2713) + ' done')\n>>> print('next')\nnext", ">>> print('a')\n>>> print('caf' + chr(233))\nsomething else"]
+    for mk in (Sink, BadFlush, NoFlushAttr, Transcript, AsciiConsole):
         for verbose in (0, 1, 2, 3):
             for oe in ('return', 'raise'):
                 for doc in docs:
@@ -263,12 +270,17 @@ def ambient_streams(ctx):
                         same = sys.stdout is amb
                     finally:
                         sys.stdout, sys.stderr = real, real_err
+                    if mk is AsciiConsole and oe == 'return' and how not in ('returned', 'raised Skipped') and 'SystemExit' not in doc:
+                        ctx.violation('not-restored', {'what': 'with a console that cannot encode every character as sys.stdout, DocTest.run(on_error=%r, verbose=%d) %s instead of returning a summary' % (
+                            oe, verbose, how), 'doctest': doc, 'ambient': mk.__name__, 'verbose': verbose, 'on_error': oe,
+                            'theorem_or_correspondence': 'C09_return_never_raises / C12 on DocTest.run (ambient stream that rejects text)'}, True)
+                        return
                     if not same:
                         ctx.violation('not-restored', {'what': 'with a %s object as sys.stdout, after DocTest.run(on_error=%r, verbose=%d) that %s, sys.stdout is not that object any more' % (
                             mk.__name__, oe, verbose, how), 'doctest': doc, 'ambient': mk.__name__, 'verbose': verbose, 'on_error': oe,
                             'theorem_or_correspondence': 'C12_stdout_restored on DocTest.run (ambient stream)'}, True)
                         return
-    ctx.count('ambient_stream_runs', 3 * 4 * 2 * len(docs))
+    ctx.count('ambient_stream_runs', 5 * 4 * 2 * len(docs))
 
 
 def after_collection(ctx):
